@@ -132,8 +132,12 @@ fn build(c: &Case, chain: &[Version], order: &[usize], interleave: bool) -> Resu
             // must still describe the whole table
             if interleave && (k % 2 == 0 || k + 2 >= order.len()) {
                 for v in chain {
-                    let mut sink = vec![];
-                    let _ = api.openapi("early", v.clone()).write(&mut sink);
+                    // a panic here must not make the case vanish: the documents judged are
+                    // generated (and their panics recorded) after the last registration
+                    let _ = std::panic::catch_unwind(std::panic::AssertUnwindSafe(|| {
+                        let mut sink = vec![];
+                        let _ = api.openapi("early", v.clone()).write(&mut sink);
+                    }));
                 }
             }
         }
